@@ -190,6 +190,7 @@ def crash_clause_c09(rep, rng, thorough):
     viol, known, summ = run_crash(rep, scens, "C09")
     for what, obj in viol:
         rep.violation(what, obj)
+    translate_protocol_part(rep, "C09")
     rep.cov["crash_failures_attributed_to_known_findings"] = known
     for w, sc in witnesses("C09", "findings"):
         v2, k2, _ = run_crash(rep, [sc], "kf")
@@ -239,6 +240,60 @@ def upgrade_landmarks(ops):
         if ev and not (out and out[-1] == ev and ev[0] in ("RWrite", "IRmMarkers")):
             out.append(ev)
     return out
+
+
+def translate_landmarks(ops):
+    """mkdir / rename / rmdir calls of a re-bucketing open reduced to the protocol steps of Translate.tla"""
+    import re
+    out, phase = [], 0
+    for k, a, b in ops:
+        if k == "mkdir" and a.startswith("new_index"):
+            out.append(("Build", -1))
+        elif k == "rename" and re.fullmatch(r"index\.\d+", a) and b.startswith("old_index"):
+            out.append(("MoveOldFile", int(a.split(".")[1])))
+        elif k == "rename" and a == "index.info" and b.startswith("old_index"):
+            out.append(("MoveOldHdr", -1))
+        elif k == "rename" and a == "index.buckets" and b.startswith("old_index"):
+            out.append(("MoveOldSnap", -1))
+        elif k == "rename" and a.startswith("new_index") and re.fullmatch(r"index\.\d+", b):
+            out.append(("MoveNewFile", int(b.split(".")[1])))
+        elif k == "rename" and a.startswith("new_index") and b == "index.info":
+            out.append(("MoveNewHdr", -1))
+        elif k == "rename" and a.startswith("new_index") and b == "index.buckets":
+            out.append(("MoveNewSnap", -1))
+        elif k == "rmdir" and a.startswith("old_index"):
+            out.append(("Cleanup", -1))
+    return out
+
+
+def translate_protocol_part(rep, label):
+    """Translate.tla: re-bucketing as a crash-restart protocol over directory entries.  TLC verifies SafeOutsideMovePhase and
+    FinishedRight and REFUTES NeverSilentlyFewer (C09's third sentence) inside the move phase - the known finding, at model
+    level; binding: the mkdir/rename/rmdir calls of every traced real translation must be a behaviour of the model."""
+    r = vlib.tlc_must("Translate", "MCTranslate_mc.cfg", timeout=600)
+    if r.violated:
+        raise vlib.Infra("Translate.tla violates SafeOutsideMovePhase / FinishedRight:\n" + r.out[-2500:])
+    rep.add_model(r)
+    rk = vlib.tlc("Translate", "MCTranslate_kf.cfg", timeout=600)
+    rep.cov["translate_model_refutes_the_third_sentence_inside_the_move_phase"] = bool(rk.rc == 12 and "NeverSilentlyFewer is violated" in rk.out)
+    files = sorted(glob.glob(os.path.join(vlib.scratch(), "crash." + label, "trace.fsops.*.json")))
+    acc = n = steps = 0
+    for f in files:
+        o = json.load(open(f))
+        lm = translate_landmarks(o["ops"])
+        if not lm:
+            continue
+        tf = f + ".lm.ndjson"
+        with open(tf, "w") as g:
+            g.write("".join(json.dumps({"a": a, "f": k}) + "\n" for a, k in lm))
+        q = vlib.tlc("TranslateTrace", "TranslateTrace.cfg", workers=1, timeout=300, env={"VTRACE": tf}, name="tr%d" % o["t"])
+        n += 1
+        steps += len(lm)
+        acc += 1 if (q.rc == 12 and "NotAccepted is violated" in q.out) else 0
+    rep.cov["translations_checked_against_the_protocol_model"] = n
+    rep.cov["translations_whose_call_order_the_model_does_not_allow"] = n - acc
+    rep.cov["translate_protocol_steps_matched"] = steps
+    vlib.log("C09 protocol model: %d traced translations, %d protocol steps, %d runs not a behaviour of Translate.tla" % (n, steps, n - acc))
 
 
 def upgrade_protocol_part(rep, label):
